@@ -3,11 +3,14 @@
 
     Partial by nature: SciPy's numerics are NOT modelled.  What is proved is what the wrappers
     themselves add (keyword forwarding, argument order, the chi-square table, Kuiper's own
-    p-value code) and the invariances of exact models of the rank / order / count statistics.
+    p-value guard and clip) and the invariances of exact models of the rank / order / count
+    statistics.
     (* FULL: for every detector, sample pair and accepted option, the returned pair equals
        (statistic, p-value) of the named test, p in [0,1] and not NaN.  NOT proved here: the
        p-values of the six SciPy-backed detectors and the Anderson-Darling / BWS statistics are
-       only checked by the monitor of harness/c12.py against direct SciPy calls. *) *)
+       only checked by the monitor of harness/c12.py against direct SciPy calls.  Known
+       findings: KuiperTest reports the KS D instead of Kuiper's V (O2, refuted below);
+       chi2_contingency gives NaN for lambda_ < 0 with an empty cell (SciPy numerics). *) *)
 From Coq Require Import ZArith List Bool String Permutation Reals PrimFloat.
 From FV Require Import NumSys RealA FloatA Py KS Tests TestsR.
 Import ListNotations.
@@ -15,41 +18,30 @@ Local Open Scope Z_scope.
 
 (* ---------------------------------------------------------------- forwarding *)
 
-(** Anderson-Darling, BWS, Cramer-von Mises, Kuiper, chi-square: for EVERY keyword dictionary
-    over the option names the test accepts, compare(X=test, **kw) reaches the SciPy function of
-    the named test, never raises TypeError, passes (reference, test) in that order, and every
-    option parameter has the user's value if given, else the default. *)
-Theorem C12_forwarding_ok : forall w kw, sound_wrapper w = true -> kw_ok w kw ->
+(** All seven detectors: for EVERY keyword dictionary over the option names the test accepts,
+    compare(X=test, **kw) reaches the SciPy function of the named test, never raises TypeError,
+    passes (reference, test) in that order, and every option parameter has the user's value if
+    given, else the default (Mann-Whitney: nan_policy="raise"; Welch: equal_var=False fixed).
+    Mann-Whitney and Welch merge their defaults into the ** dictionary
+    ({"alternative": "two-sided", ..., **kwargs}) since /repo 081bdd5; before that the same
+    names were also passed explicitly and every such dictionary raised TypeError (F19). *)
+Theorem C12_forwarding_ok : forall w kw, kw_ok w kw ->
   exists c, compare_call w kw = Ok c /\ forwarded w kw c.
 Proof. exact forwarding_ok. Qed.
 Print Assumptions C12_forwarding_ok.
 
-(** (* FULL: the same for Mann-Whitney and Welch. *)  FALSE of the code (finding F19):
-    `alternative` (and, for Mann-Whitney, `nan_policy`) is passed both explicitly and through
-    **kwargs, so compare(X, alternative="less") raises TypeError. *)
-Theorem C12_forwarding_refuted : forall w, sound_wrapper w = false ->
-  exists kw, kw_ok w kw /\ compare_call w kw = Raise TypeError.
-Proof. exact forwarding_refuted. Qed.
-Print Assumptions C12_forwarding_refuted.
-
-(** what does hold for these two: TypeError exactly when one of the doubly-passed names is
-    given; every other accepted dictionary is forwarded correctly *)
-Theorem C12_forwarding_partial : forall w kw, sound_wrapper w = false -> kw_ok w kw ->
-  ((exists k, In k (twice w) /\ In k (keys kw)) -> compare_call w kw = Raise TypeError) /\
-  ((forall k, In k (twice w) -> ~ In k (keys kw)) -> exists c, compare_call w kw = Ok c /\ forwarded w kw c).
-Proof. exact forwarding_twice. Qed.
-Print Assumptions C12_forwarding_partial.
-
 Example C12_forwarding_nonvacuous :
-  kw_ok CVM [(Kmethod, VStr "exact")] /\
-  compare_call CVM [(Kmethod, VStr "exact")] =
-    Ok {| c_fn := cramervonmises_2samp;
-          c_args := [(Kx, VSample Ref); (Ky, VSample Test); (Kmethod, VStr "exact"); (Kaxis, VInt 0);
-                     (Knan_policy, VStr "propagate"); (Kkeepdims, VBool false)] |} /\
-  compare_call MWU [(Kmethod, VStr "exact")] <> Raise TypeError /\
-  twice MWU = [Kalternative; Knan_policy] /\ twice Welch = [Kalternative].
+  kw_ok MWU [(Kalternative, VStr "less"); (Kmethod, VStr "exact")] /\
+  compare_call MWU [(Kalternative, VStr "less"); (Kmethod, VStr "exact")] =
+    Ok {| c_fn := mannwhitneyu;
+          c_args := [(Kx, VSample Ref); (Ky, VSample Test); (Kuse_continuity, VBool true); (Kalternative, VStr "less");
+                     (Kaxis, VInt 0); (Kmethod, VStr "exact"); (Knan_policy, VStr "raise"); (Kkeepdims, VBool false)] |} /\
+  compare_call Welch [(Kalternative, VStr "greater")] <> Raise TypeError /\
+  (* names outside the accepted set are still refused *)
+  compare_call Welch [(Kequal_var, VBool true)] = Raise TypeError /\
+  compare_call Kuiper [(Kalternative, VStr "less")] = Raise TypeError.
 Proof.
-  split; [split; [repeat constructor; intros []| intros k [<-|[]]; cbn; tauto]|].
+  split; [split; [repeat constructor; cbn; intuition discriminate| intros k [<-|[<-|[]]]; cbn; tauto]|].
   split; [reflexivity|]. split; [vm_compute; discriminate|]. split; reflexivity.
 Qed.
 
@@ -185,23 +177,42 @@ Qed.
 (* ---------------------------------------------------------------- Kuiper *)
 
 (** (* FULL: for all samples of size >= 2 the Kuiper p-value is in [0,1] and not NaN. *)
-    FALSE of the code (finding F20): the binary64 run of the transliterated
-    _false_positive_probability gives NaN on ([1,2,3],[1.5,2.5,3.5]) (negative base to the
-    power N-1 = 0.5), 1.5 on ([1,3,5,7],[2,4,6,8]) and -0.0047 on ([1..5],[6..13]) (D = 1). *)
-Theorem C12_kuiper_pvalue_refuted : exists X Y : list float,
-  2 <= zlen X /\ 2 <= zlen Y /\ p_valid (A:=FloatA) (kuiper_p (A:=FloatA) X Y) = false.
-Proof. exact kuiper_pvalue_refuted. Qed.
-Print Assumptions C12_kuiper_pvalue_refuted.
+    Proved part (code since /repo 6ddbfc2: guard `D <= 1/N -> 1.0`, np.clip(p, 0, 1)):
+    for ALL binary64 samples, if the series value is not NaN then the returned p-value is in
+    [0,1] (np.clip over binary64, proved from the IEEE comparison specification).
+    Missing for the full statement: NaN-freeness of the binary64 series in the branches
+    D > 1/N (libm pow/exp/gamma are not modelled exactly) - the monitor checks it on every run. *)
+Theorem C12_kuiper_pvalue_partial : forall X Y : list float,
+  PrimFloat.is_nan (kuiper_fpp (A:=FloatA) (kuiper_stat (A:=FloatA) X Y) (zlen X) (zlen Y)) = false ->
+  p_valid (A:=FloatA) (kuiper_p (A:=FloatA) X Y) = true.
+Proof. exact kuiper_p_valid. Qed.
+Print Assumptions C12_kuiper_pvalue_partial.
 
-Theorem C12_kuiper_pvalue_witnesses :
-  (PrimFloat.is_nan (kuiper_p (A:=FloatA) [1; 2; 3] [0x1.8p+0; 0x1.4p+1; 0x1.cp+1])%float = true /\
-  PrimFloat.ltb 1 (kuiper_p (A:=FloatA) [1; 3; 5; 7] [2; 4; 6; 8])%float = true /\
-  PrimFloat.ltb (kuiper_p (A:=FloatA) [1; 2; 3; 4; 5] [6; 7; 8; 9; 10; 11; 12; 13]) 0 = true)%float.
-Proof. split; [exact (proj1 kuiper_p_nan) | split; [exact (proj1 kuiper_p_above_one) | exact (proj1 kuiper_p_below_zero)]]. Qed.
-Print Assumptions C12_kuiper_pvalue_witnesses.
+(** The guard, for every number system: at or below 1/N (N = n m / (n + m)) the p-value is
+    exactly 1, so the power with a non-positive base is never evaluated; and over R, once the
+    guard fails the base D - 1/N of the first-branch power (D - 1/N) ** (N - 1) is positive
+    (this is what removed the NaN of F20). *)
+Theorem C12_kuiper_guard :
+  (forall (A : Arith) (D : num A) (n m : Z),
+     NumSys.leb D (NumSys.div NumSys.one (NumSys.div (NumSys.ofZ (n * m)) (NumSys.ofZ (n + m)))) = true ->
+     kuiper_fpp D n m = NumSys.one) /\
+  (forall D N : R, @NumSys.leb RealA D (@NumSys.div RealA NumSys.one N) = false ->
+     @NumSys.ltb RealA NumSys.zero (@NumSys.sub RealA D (@NumSys.div RealA NumSys.one N)) = true) /\
+  (forall p : R, p_valid (A:=RealA) (clip01 (A:=RealA) p) = true).
+Proof. split; [exact kuiper_guard | split; [exact kuiper_guard_base_R | exact clip01_valid_R]]. Qed.
+Print Assumptions C12_kuiper_guard.
 
-(** The statistic KuiperTest reports is ks_2samp's D = max(D+, D-); Kuiper's statistic is
-    V = D+ + D-.  On ([1,4],[2,3]): n m D = 2, n m V = 4. *)
+(** non-vacuity / regression: the inputs on which the code before 6ddbfc2 returned NaN, 1.5 and
+    -0.0047 (and identical samples, D = 0: NaN) now give 1, 1, 0 and 1 *)
+Example C12_kuiper_nonvacuous :
+  (kuiper_p (A:=FloatA) [1; 2; 3] [0x1.8p+0; 0x1.4p+1; 0x1.cp+1] = 1 /\
+   kuiper_p (A:=FloatA) [1; 3; 5; 7] [2; 4; 6; 8] = 1 /\
+   kuiper_p (A:=FloatA) [1; 2; 3; 4; 5] [6; 7; 8; 9; 10; 11; 12; 13] = 0 /\
+   kuiper_p (A:=FloatA) [1; 2; 3] [1; 2; 3] = 1)%float.
+Proof. exact kuiper_p_former_witnesses. Qed.
+
+(** Known finding O2 (not repaired): the statistic KuiperTest reports is ks_2samp's
+    D = max(D+, D-); Kuiper's statistic is V = D+ + D-.  On ([1,4],[2,3]): n m D = 2, n m V = 4. *)
 Theorem C12_kuiper_statistic_refuted : exists X Y : list float,
   ks_H (A:=FloatA) X Y = ks_DH PrimFloat.ltb X Y /\ ks_H (A:=FloatA) X Y <> kuiper_VH PrimFloat.ltb X Y.
 Proof. exact kuiper_stat_is_not_V. Qed.
